@@ -160,6 +160,39 @@ func (r *runner) clientConc(ci int, ops []Op) {
 			}
 		}
 	}
+	var prevSnap *leveldb.Snapshot
+	var prevObs map[string]uint32
+	var prevKeys []Rec
+	recheck := func() {
+		s, obs := prevSnap, prevObs
+		prevSnap = nil
+		defer s.Release()
+		for _, k := range prevKeys {
+			want, seen := obs[string(k.Key)]
+			if !seen {
+				continue
+			}
+			v, err := s.Get(k.Key, nil)
+			var got uint32
+			switch {
+			case err == leveldb.ErrNotFound:
+			case err == nil:
+				got, _ = r.valID(v)
+			default:
+				return // closed meanwhile, or an injected failure
+			}
+			if got != want {
+				r.viol("snap", "snap-unstable", fmt.Sprintf("client %d: the same snapshot returned value id %d for %q, and id %d when read again later", ci, want, k.Key, got))
+				return
+			}
+		}
+		r.probe("snapshot-reread")
+	}
+	defer func() {
+		if prevSnap != nil {
+			recheck()
+		}
+	}()
 	for i := range ops {
 		if len(r.out.Viol) > 0 {
 			return
@@ -168,6 +201,9 @@ func (r *runner) clientConc(ci int, ops []Op) {
 		db := r.db
 		if db == nil {
 			return
+		}
+		if prevSnap != nil && op.K != "snap" && i > 0 && ops[i-1].K != "snap" {
+			recheck()
 		}
 		switch op.K {
 		case "put", "del", "write":
@@ -273,7 +309,13 @@ func (r *runner) clientConc(ci int, ops []Op) {
 				}
 				simrt.Progress()
 			}
-			s.Release()
+			// the snapshot stays open while the client performs its next
+			// operation and is then read once more: a frozen view gives the
+			// same answers, whatever has been committed in between
+			if prevSnap != nil {
+				recheck()
+			}
+			prevSnap, prevObs, prevKeys = s, h.obs, op.Recs
 		case "iter":
 			h := r.begin(ci, "iter")
 			simrt.SetOp("NewIterator")
@@ -1331,10 +1373,10 @@ func genConc(prop string, seed uint64, g *gen, thorough bool) *Case {
 			x := r.intn(100)
 			isW := role == 0 && x < 90 || role == 1 && x < 15 || role == 2 && x < 50
 			switch {
-			case isW && r.p(0.06):
+			case isW && (r.p(0.06) || prop == "C11" && r.p(0.3)):
 				op := Op{K: "tx", Commit: r.p(0.8)}
 				n, vmax := r.rng(1, 4), 200
-				if prop == "C05" && r.p(0.4) {
+				if (prop == "C05" || prop == "C11") && r.p(0.4) {
 					// a transaction iterator kept while the body grows past
 					// the write buffer
 					op.Keep = true
